@@ -6,6 +6,7 @@
 //!       `kind:at:n:sheet;..` (kind = insrow|inscol|remrow|remcol) are applied one after the other at
 //!       workbook level (`Spreadsheet::insert_new_row(name, ..)` ..) or sheet level
 //!       (`Worksheet::insert_new_row` on the edited sheet, `.._from_other_sheet` on the others);
+//!       level `lz` = workbook level on the same workbook saved and opened lazily (no sheet deserialized yet);
 //!       reply = the formula text after each edit.
 //!   c08 dn <wb|ws> <nsheet> <address> <edits> <expected,..> - <tags>
 //!       the same for a defined name stored on sheet <nsheet> (`DefinedName::get_address`).
@@ -65,7 +66,7 @@ fn new_book() -> umya_spreadsheet::Spreadsheet {
 
 fn apply(book: &mut umya_spreadsheet::Spreadsheet, level: &str, e: &EditOp) {
     let name = SHEETS[e.sheet];
-    if level == "wb" {
+    if level == "wb" || level == "lz" {
         match (e.insert, e.axis) {
             (true, Axis::Row) => book.insert_new_row(name, &e.at, &e.n),
             (true, Axis::Col) => book.insert_new_column_by_index(name, &e.at, &e.n),
@@ -136,6 +137,11 @@ pub fn exec(out: &mut Out, line: &str) -> (String, bool) {
             let mut got: Vec<Result<String, ()>> = vec![];
             let mut book = new_book();
             book.get_sheet_mut(&fsheet).unwrap().get_cell_mut((FCOL, FROW)).set_formula(src.clone());
+            if level == "lz" {
+                // the same workbook opened lazily: no sheet is deserialized when the first edit arrives
+                let bytes = crate::wb::save_bytes(&book, false).expect("save");
+                book = umya_spreadsheet::reader::xlsx::read_reader(std::io::Cursor::new(bytes), false).expect("lazy read");
+            }
             let mut dead = false;
             for e in &edits {
                 if dead {
@@ -144,6 +150,9 @@ pub fn exec(out: &mut Out, line: &str) -> (String, bool) {
                 }
                 let r = guard(|| {
                     apply(&mut book, level, e);
+                    if level == "lz" {
+                        book.read_sheet(fsheet);
+                    }
                     formula_of(&book, fsheet)
                 });
                 if r.is_err() {
@@ -362,7 +371,7 @@ pub fn gen(tier: Tier, seed: u64) -> Vec<String> {
         }
         let any_alt = !defects.is_empty();
         let tags = if any_alt { format!("{}+known:{}", tags, defects.join("+")) } else { tags };
-        let level = if rng.chance(1, 2) { "wb" } else { "ws" };
+        let level = if rng.chance(1, 6) { "lz" } else if rng.chance(1, 2) { "wb" } else { "ws" };
         v.push(format!(
             "c08 hist {} {} {} {} {} {} {}",
             level,
